@@ -397,6 +397,7 @@ class DiffCheck:
     partial_note = ''
     case_timeout = 600
     lockset_rules = None     # set of E4L rule ids (lib/lockset.py) relevant to this property, or None
+    e4s_props = None         # property ids whose E4S scenarios/oracles (lib/e4s.py) this check runs, or None
 
     # (*) build the implementation harness from /repo's current tree -> exe path or raise
     def build_impl(self):
@@ -540,6 +541,15 @@ class DiffCheck:
                 self.extra_coverage.update(lcov)
             except Exception as e:
                 violations.append(dict(kind='build', message='lockset engine failed: %s' % str(e)[-1500:], case=None))
+        # E4S (lib/e4s.py): controlled multi-vCPU schedule search on the implementation with the property's oracle
+        if getattr(self, 'e4s_props', None) and not a.replay:
+            try:
+                import e4s
+                ev_, ecov = e4s.run(set(self.e4s_props), tier=a.tier, seed=seed)
+                violations += ev_
+                self.extra_coverage.update({'e4s': ecov})
+            except Exception as e:
+                violations.append(dict(kind='build', message='E4S engine failed: %s' % str(e)[-1500:], case=None))
         try:
             violations += list(self.extra(self.ctx) or [])
         except Exception as e:
